@@ -37,34 +37,40 @@ def r1_dunders(R) -> None:
         if not R.require(q, len(calls), f'super().{m}(key, ...)', fi=f.fi, pred=lambda x, m=m: is_super_call(x, m)):
             continue
         c = calls[0]
-        want = ['key'] if m == '__getitem__' else ['key', 'value']
-        R.check(len(calls) == 1 and [text(a) for a in c.args] == want, q, 'base-call:' + text(c), 'the (re-keyed) key and the value go to the base',
-                f'`{text(c)}`', where=f.fi.where)
+        from fsa.gated import SymExec, canon, seq_elements
+        ps = f.fi.params()
+        key = ps[1] if len(ps) > 1 else 'key'
+        R.check(len(calls) == 1 and len(c.args) == (1 if m == '__getitem__' else 2) and not c.keywords and (m == '__getitem__' or text(c.args[1]) == ps[2]), q,
+                'base-call:' + text(c)[:60], 'the (re-keyed) key and the value go to the base', f'`{text(c)}`', where=f.fi.where)
         rets = f.returns()
         R.check(len(rets) == 1 and rets[0].ast.value is c, q, 'returns-base', 'the base result is returned', f'{m} does not return the base result', where=f.fi.where)
-        # key rebinding per branch
-        ds = f.assigns_to('key')
-        rows = {}
-        for d in ds:
-            g = [(text(a), truth) for (a, truth, _t) in f.guard_atoms(d.id)]
-            tup = ('isinstance(key, tuple)', True) in g
-            rows['tuple' if tup else 'plain'] = d
-        pl = rows.get('plain')
-        R.check(pl is not None and text(pl.ast.value) == f'{RES}(key)', q, 'plain-key', 'a plain name key is resolved', 'a plain key is not passed through _resolve_alias',
-                where=f.fi.where)
-        tp = rows.get('tuple')
+        # what the base receives as key, as one gated expression over the key given
+        se = SymExec(f.fi.node)
+        st_ = [s_ for s_ in ast.walk(f.fi.node) if isinstance(s_, ast.stmt) and id(s_) in se.before and any(x is c for x in ast.walk(s_))]
+        kv = canon(se.value(st_[-1], c.args[0])) if st_ and c.args else None
+        if kv is None:
+            raise Unsupported(f'{q}: base call not visited')
+        plain = tup = None
+        if isinstance(kv, ast.IfExp) and text(kv.test) == f'isinstance({key}, tuple)':
+            tup, plain = kv.body, kv.orelse
+        elif text(kv) == f'{RES}({key})':
+            plain = kv
+        else:
+            raise Unsupported(f'{q}: the key handed to the base is `{text(kv)[:80]}`')
+        R.check(plain is not None and text(plain) == f'{RES}({key})', q, 'plain-key', 'a plain name key is resolved', 'a plain key is not passed through _resolve_alias'
+                + (f' (it becomes `{text(plain)[:50]}`)' if plain is not None else ''), where=f.fi.where)
         ok = False
-        if tp is not None:
-            v = tp.ast.value
-            # tuple([self._resolve_alias(name)] + list(index))
-            ok = is_call(v, 'tuple') and isinstance(v.args[0], ast.BinOp) and text(v.args[0].left) == f'[{RES}(name)]' and text(v.args[0].right) == 'list(index)'
-            if not ok:
-                ok = isinstance(v, ast.Tuple) and text(v.elts[0]) == f'{RES}(name)' and all(isinstance(e, ast.Starred) and text(e.value) == 'index' for e in v.elts[1:])
-        R.check(ok, q, 'tuple-key:' + (text(tp.ast.value)[:60] if tp is not None else 'missing'), 'in a (name, index) key only the name is resolved; the index part passes unchanged',
-                f'tuple keys become `{text(tp.ast.value)[:70] if tp is not None else "<missing>"}`', where=f.fi.where)
-        un = [n for n in f.cfg.nodes if n.kind == 'stmt' and isinstance(n.ast, ast.Assign) and text(n.ast.value) == 'key' and isinstance(n.ast.targets[0], ast.Tuple)]
-        R.check(bool(un) and text(un[0].ast.targets[0]) in ('(name, *index)', 'name, *index'), q, 'tuple-unpack', 'the key is unpacked as name, *index',
-                f'`{text(un[0].ast) if un else "?"}`', where=f.fi.where)
+        shown = '<missing>'
+        if tup is not None:
+            shown = text(tup)[:70]
+            el = seq_elements(tup)
+            if el is not None and len(el) == 2 and el[0][0] == 'elt' and text(el[0][1]) == f'{RES}({key}[0])' and el[1][0] == 'star':
+                rest = el[1][1]
+                while isinstance(rest, ast.Call) and isinstance(rest.func, ast.Name) and rest.func.id in ('list', 'tuple') and len(rest.args) == 1:
+                    rest = rest.args[0]
+                ok = text(rest) == f'{key}[1:]'
+        R.check(ok, q, 'tuple-key:' + shown[:60], 'in a (name, index) key only the name is resolved; the index part passes unchanged',
+                f'tuple keys become `{shown}`', where=f.fi.where)
     # _resolve_alias
     q = f'{A}._resolve_alias'
     fi = R.repo.func(q)
